@@ -185,8 +185,8 @@ def judge(res, sigs, values, method, drivers):
         key = SINGLE_PASS_KEY
     else:
         varying = sorted(d for d in drivers if len(set(o for k, o in obs.items() if k[0] == d)) > 1)
-        key = 'order-dependent outcome (not the single-pass pattern): %s; drivers that vary on their own: %s' % (
-            classes(distinct), '+'.join(varying) or 'none (drivers disagree with each other)')
+        where = 'every driver' if varying == sorted(drivers) else '+'.join(varying) or 'no single driver (the drivers disagree with each other)'
+        key = 'order-dependent outcome (not the single-pass pattern): %s; varies within %s' % (classes(distinct), where)
     size = (len(sigs), len(values), method, sum(ORDER.index(t) if t in ORDER else 9 for sg in sigs for t in sg), values)
     res.fail(key, {'signatures': sigs, 'values': values, 'method': method, 'drivers': sorted(drivers)},
              'outcomes by order: %s; model (most specific of all matches): %r'
